@@ -16,10 +16,12 @@ def fp_is_int(c, j):
 class Join(Harness):
     prop = "C05"
     opname = "df_join"
-    def __init__(self, kind, keykinds, na, nb, renamed=False):
+    def __init__(self, kind, keykinds, na, nb, renamed=False, rightkinds=None):
         self.kind = kind; self.keykinds = keykinds; self.na = na; self.nb = nb; self.renamed = renamed
-        self.name = f"C05.{kind}.{'+'.join(keykinds)}{'.renamed' if renamed else ''}.{na}x{nb}"
+        self.rightkinds = rightkinds or keykinds
+        self.name = f"C05.{kind}.{'+'.join(keykinds)}{'.vs.' + '+'.join(rightkinds) if rightkinds else ''}{'.renamed' if renamed else ''}.{na}x{nb}"
         self.bounds = {"left rows": f"0..{na}", "right rows": f"0..{nb}", "key dtypes": [KIND_DTYPE[k] for k in keykinds],
+                       "right key dtypes": [KIND_DTYPE[k] for k in self.rightkinds],
                        "keys named differently on the two sides": renamed,
                        "payload": "left: float64 + row id; right: float64 + int64 + row id"}
         self.symbolic = ["all key and payload cells on both sides"]
@@ -31,7 +33,7 @@ class Join(Harness):
         for j, k in enumerate(self.keykinds):
             an = "k%d" % j; bn = ("r%d" % j) if self.renamed else an
             A[an] = mk_col(k, na, "a" + an)
-            B[bn] = mk_col(k, nb, "b" + bn)
+            B[bn] = mk_col(self.rightkinds[j], nb, "b" + bn)
             by.append([an, bn] if self.renamed else an)
         A["pa"] = mk_col("f", na, "pa"); A["ra"] = rid_col(na)
         B["pb"] = mk_col("f", nb, "pb"); B["pi"] = mk_col("i", nb, "pi"); B["rb"] = rid_col(nb)
@@ -130,7 +132,7 @@ class Join(Harness):
                     for n in A.names:
                         if n == "ra": continue
                         oc = res.cols[n]
-                        if oc.dtype != A.cols[n].dtype:
+                        if oc.dtype != A.cols[n].dtype and not (n in anames and kind_of(oc) in ("T", "U") and kind_of(A.cols[n]) in ("T", "U")):
                             cl.append((f"dtype of left column {n}", T(False))); continue
                         kk = kind_of(A.cols[n])
                         # key columns of a row produced by the reverse join carry the (equal) right key:
@@ -145,7 +147,8 @@ class Join(Harness):
                     # a row stemming only from a right row carries that row's key under the left name
                     for an, bcol, k in zip(anames, kb, kinds):
                         oc = res.cols[an]
-                        if oc.dtype != bcol.dtype: cl.append((f"dtype of key column {an}", T(False))); continue
+                        both_str = kind_of(oc) in ("T", "U") and kind_of(bcol) in ("T", "U")       # fixed- and variable-width strings promote to variable width
+                        if oc.dtype != bcol.dtype and not both_str: cl.append((f"dtype of key column {an}", T(False))); continue
                         cl.append((f"result row {r}: unmatched right row keeps its key",
                                    z3.Implies(z3.And(is_id(rbc, r, j), id_missing(rac, r)), cell_ident(oc.cells[r], bcol.cells[j], k))))
         return cl
@@ -165,6 +168,7 @@ def harnesses(tier):
             hs.append(Join(kind, ["td"], 2, 2))
         hs.append(Join("semi_join", ["us"], 2, 2))
         hs.append(Join("left_join", ["ns"], 2, 2)); hs.append(Join("anti_join", ["ns"], 1, 2))
+        hs.append(Join("inner_join", ["U"], 2, 2, rightkinds=["T"])); hs.append(Join("full_join", ["T"], 1, 2, rightkinds=["U"]))
         hs.append(Prepared(Join("left_join", ["T"], 2, 2))); hs.append(Prepared(Join("full_join", ["f"], 2, 2)))
     else:
         for kind in JOINS:
@@ -173,4 +177,5 @@ def harnesses(tier):
             hs.append(Join(kind, ["i"], 3, 3, renamed=True))
             hs.append(Join(kind, ["i", "f"], 2, 3))
             hs.append(Join(kind, ["T", "i"], 2, 2, renamed=True))
+            hs.append(Join(kind, ["U"], 2, 2, rightkinds=["T"])); hs.append(Join(kind, ["T"], 2, 2, rightkinds=["U"]))
     return hs
